@@ -90,6 +90,7 @@ def run(ctx, R, tier):
     R.rule("C14-R8", "the generic (in-memory) filter matches literally and case-sensitively", floor=1)
     R.rule("C14-R7", "a missing key raises KeyError on both back-ends", floor=1)
     R.rule("C14-R6", "removal counts: len() of the very list handed to remove_items; 1 only after the guarded delete", floor=3)
+    R.rule("C14-R10", "SqlStorage.__setitem__ writes the key and the uri it was given on every path (an overwrite does not keep the old uri)", floor=1)
 
     # ---------------------------------------------------------------- R1 + collect DML
     dml_by_method = {}
@@ -360,6 +361,10 @@ def run(ctx, R, tier):
         R.check(ok, "C14-R5", "optimized_metadata_search|%s-is-a-set" % prm, "the counted argument is a set when it reaches the SQL search", oms.loc(count_uses[0]), why)
     if n5 < 1:
         raise AnalysisError("optimized_metadata_search: no counted argument found")
+
+    # ---------------------------------------------------------------- R10
+    from .common import sql_setitem_writes_uri
+    sql_setitem_writes_uri(ctx, R, "C14-R10")
 
 
 def _inside(node, container):
